@@ -69,6 +69,9 @@ def call_sites(d, names):
             j -= 1
         else:
             j = -1
+        # a piped tuple: INT tag; RECORD k; VECREF_DEREF; RECORD_UNPACK k; <callee>
+        if j >= 2 and nm[j] == "BYTECODE_RECORD_UNPACK" and nm[j - 1] == "BYTECODE_VECREF_DEREF" and nm[j - 2] == "BYTECODE_RECORD":
+            j -= 3
         tag = None
         if j >= 0 and nm[j] == "BYTECODE_INT" and code[j][1] > gen.TAG0:
             tag = code[j][1]
@@ -286,6 +289,8 @@ def run(ctx):
             dist["catch-clauses"] += 1
         for w in re.findall(r"[a-z_]+(?=\d*\()", p.shape_id):
             dist["form:" + w] += 1
+        for c in p.cx.calls.values():
+            dist["callsite:%s:%s" % (p.kind if p.kind != "tail" else "tail", c["form"])] += 1
         replay = {"program": p.src, "shape": p.shape_id, "stack": STACK,
                   "how": "bin/repobuild plain; bcdump --peak --nocode --stack S --arg N --arg 0 FILE (w=1: loop version)"}
         if res["compile"] != 0:
